@@ -3,7 +3,9 @@ package otto
 import (
 	"bytes"
 	"encoding/json"
+	"errors"
 	"fmt"
+	"strconv"
 	"strings"
 	"unicode/utf16"
 )
@@ -54,6 +56,7 @@ type jsonValue struct {
 
 func (v *jsonValue) UnmarshalJSON(text []byte) error {
 	dec := json.NewDecoder(bytes.NewReader(text))
+	dec.UseNumber()
 	tok, err := dec.Token()
 	if err != nil {
 		return err
@@ -85,6 +88,14 @@ func (v *jsonValue) UnmarshalJSON(text []byte) error {
 		v.value = members
 	default:
 		v.value = tok
+		if literal, ok := tok.(json.Number); ok {
+			// A literal beyond the float64 range is not an error: it rounds to an infinity.
+			number, err := strconv.ParseFloat(string(literal), 64)
+			if err != nil && !errors.Is(err, strconv.ErrRange) {
+				return err
+			}
+			v.value = number
+		}
 	}
 	return nil
 }
